@@ -162,4 +162,3 @@ func cmdList(args []string) {
 		fmt.Printf("%-60s %s\n", k, s)
 	}
 }
-
